@@ -7,9 +7,10 @@ tvars == <<tid, l>>
 TInit == tid \in 1..NTraces /\ l = 0
 
 \* expected data of variable s as the reader presents it: [time][level][y][x]
-ExpVar(c, s) ==
-  LET nl == IF s <= Len(c.sfc) THEN 1 ELSE Len(c.levels) - 1 IN
-  [t \in 1..c.nt |-> [lv \in 1..nl |-> ExpField(c, s, t, IF s <= Len(c.sfc) THEN 0 ELSE lv)]]
+\* (a layer variable is presented on the levels that carry it, in level order)
+ExpVar(c, name) ==
+  LET ls == IF IsSfc(c, name) THEN <<0>> ELSE LevelsOf(c, name) IN
+  [t \in 1..c.nt |-> [q \in 1..Len(ls) |-> ExpField(c, name, t, ls[q])]]
 
 TStep ==
   LET tr == Traces[tid] c == tr.cfg IN
@@ -17,15 +18,15 @@ TStep ==
   /\ Chk(tr, 1, "reference encoder: file size", tr.nbytes, c.nt * RecordsPerTime(c) * RecLen(c))
   /\ ChkT(tr, 1, "reader raised on a file laid out as the format prescribes: " \o tr.exc, tr.res = "ok")
   /\ Chk(tr, 1, "dimensions (time, z, y, x)", tr.dims, [time |-> c.nt, z |-> Len(c.levels) - 1, y |-> c.ny, x |-> c.nx])
-  /\ Chk(tr, 1, "variable list (surface variables, then layer variables)", tr.names, c.sfc \o c.lay)
+  /\ Chk(tr, 1, "variable list (surface variables, then layer variables by first appearance)", tr.names, AllNames(c))
   /\ Chk(tr, 1, "surface level", tr.sfclvl, c.levels[1].v)
   /\ Chk(tr, 1, "level list", tr.levels, [q \in 1..(Len(c.levels) - 1) |-> c.levels[q + 1].v])
   /\ Chk(tr, 1, "reference time", tr.reftime, SubSeq(CivilOfStep(c, 1), 1, 6))
   /\ Chk(tr, 1, "times (hours since the first)", tr.hours, [t \in 1..c.nt |-> HoursSince(c, t)])
   /\ \A s \in 1..NVars(c) :
-       /\ ChkT(tr, s, "values of " \o VarName(c, s) \o " are not multiples of one unit", tr.vars[s].ok)
-       /\ Chk(tr, s, "unpacked field of " \o VarName(c, s) \o " (every element equals the running reconstruction of the packing)",
-              tr.vars[s].v, ExpVar(c, s))
+       /\ ChkT(tr, s, "values of " \o AllNames(c)[s] \o " are missing or not multiples of one unit", tr.vars[s].ok)
+       /\ Chk(tr, s, "unpacked field of " \o AllNames(c)[s] \o " (every element equals the running reconstruction of the packing)",
+              tr.vars[s].v, ExpVar(c, AllNames(c)[s]))
   /\ TrAccept(tr)
 TSpec == TInit /\ [][TStep]_tvars
 =================================================================================
